@@ -15,3 +15,5 @@ contract("C03", "hmc_take_step", native=False)(hmc_take_step)
 
 from contracts.mcmc_ensemble import ensemble_advance_walker
 contract("C03", "ensemble_advance_walker", native=False)(ensemble_advance_walker)
+
+from contracts.mcmc_native import chain_invariant_native, shared_inputs_native  # noqa: registers the bounded layer
